@@ -40,6 +40,28 @@ def add_predecessor(case, rng, p=0.6):
         return case
     doc = copy.deepcopy(case["doc"])
     changed = False
+    if r.chance(0.4):
+        # the earlier version had MORE in it (so its header is longer than the one on trial): extra bindings on sinks the
+        # document leaves alone, reading a source of the first named object
+        named = [(o["id"], o["cls"]) for o in doc["objects"] if o.get("id") and o["cls"] in ("SimWidget", "SimPanel")]
+        if named:
+            a = ["obj", named[0][0]]
+            extra = {"out1": ["bin", "int", "+", ["prop", a, "intVal"], ["lit", "int", 1]], "out2": ["bin", "int", "*", ["prop", a, "intVal"], ["lit", "int", 2]],
+                     "outText": ["bin", "string", "+", ["prop", a, "text"], ["lit", "string", " (earlier version of this document)"]],
+                     "outText2": ["bin", "string", "+", ["lit", "string", "earlier: "], ["prop", a, "text"]],
+                     "outFlag": ["un", "!", ["prop", a, "flag"]]}
+            for o in doc["objects"]:
+                if o["cls"] not in ("SimWidget", "SimPanel"):
+                    continue
+                taken = set(b["target"] for b in o["bindings"]) | set(c[0].split(".")[0] for c in o["consts"])
+                for t, e in sorted(extra.items()):
+                    if t not in taken and r.chance(0.6):
+                        o["bindings"].append({"target": t, "sub": None, "layer": 2, "body": {"kind": "expr", "expr": e}})
+                        changed = True
+            if changed:
+                case["prev_qml"] = gen.render_doc(doc)
+                case["prev_kind"] = "more"
+                return case
     for o in [doc["root"]] + doc["objects"]:
         if o["handlers"] and r.chance(0.8):
             keep = [h for h in o["handlers"] if r.chance(0.3)]
